@@ -230,6 +230,7 @@ def gen(rng, tier):
             # historyFreq against outputFreq, a zero on either side included
             hf, of_ = rng.choice([0, 2, 3, 4, 5, 6, 9]), rng.choice([0, 0, 1, 2, 3, 4])
             t = "abf {\n name vb\n colvars r\n fullSamples 2\n outputFreq %d\n historyFreq %d\n}\n" % (of_, hf)
+            L.append("m.opt prefix %s" % os.path.join(work, "abfhist%d" % k))      # the history files go to the scratch directory
             L.append("v.cfg abfhist %d %d %s" % (hf, of_, esc(t)))
             meta.update(hf=hf, of_=of_)
         elif kind == "moving":
